@@ -40,6 +40,7 @@ Fire(a) ==
     [] a.op = "index"    -> DgIndex(a.g, a.kind)
     [] a.op = "slice"    -> Slice(a.o, a.kind)
     [] a.op = "ocopy"    -> Copy(a.o, a.how)
+    [] a.op = "to"       -> ObjTo(a.o, a.u)
     [] a.op = "sortkey"  -> DgSortByKey(a.g, a.k)
     [] a.op = "sortidx"  -> DgSortByIdx(a.g, a.p)
     [] a.op = "iop"      -> IOpArgsOk(a.o, a.rhs) /\ IOp(a.f, a.o, a.rhs)
